@@ -16,7 +16,7 @@ from ..world import (cast_module_outputs, DT, DTN, HAS_VOL, OPTION_KINDS, RecMod
                      build_feature, eff_dtype, feature_name)
 
 ID = "C16"
-QUICK_RUNS = 480
+QUICK_RUNS = 640
 RULE = ("Seeded multi-actor histories (6-30 ops) over 1-2 shared primaries, 2-4 derivatives and 1-2 hedgers. "
         "A run is non-trivial if it reached the hazard: a restart-equivalence comparison on a hedger that had "
         "already been used with a different derivative / path count / dtype or had its volatile state corrupted, "
@@ -197,7 +197,12 @@ def generate(rng):
         kind = rng.wchoice([("simulate", 3), ("hedger_op", 6), ("quant", 4), ("cast", 1), ("fault", 10 * fault_rate), ("set_attr", 1)])
         if kind == "set_attr":
             # the user re-parameterises a live object: results afterwards depend on the new attribute only
-            if rng.chance(0.5):
+            if rng.chance(0.35):
+                # another calendar on the same objects: dt changes, maturities keep their number of steps -> identical shapes
+                p = rng.choice(prims)
+                from ..gen import DTS
+                emit({"op": "rescale_time", "target": p["id"], "dt": rng.choice([x for x in DTS if x != p["params"]["dt"]])}, actor)
+            elif rng.chance(0.5):
                 p = rng.choice(prims)
                 emit({"op": "set_attr", "target": p["id"], "attr": "cost", "value": rng.choice([0.0, 1e-3, 0.01])}, actor)
             else:
@@ -568,6 +573,17 @@ def _execute(program, stats, hist):
             cast_module_outputs(h.inputs, DT[op["dtype"]])
             stats.probe("hedger_cast")
             hist.add(actor=op.get("actor"), op="hedger_to", hedger=op["hedger"], dtype=op["dtype"])
+        elif name == "rescale_time":
+            p_ = world.primaries[op["target"]]
+            old_dt = float(p_.dt)
+            for did_, dd in world.derivatives.items():
+                if any(u is p_ for u in dd.underliers()):
+                    dd.maturity = float(dd.maturity) / old_dt * op["dt"]
+                    if hasattr(dd, "start"):
+                        dd.start = float(dd.start) / old_dt * op["dt"]
+            p_.dt = op["dt"]
+            stats.probe("attribute_assigned_on_live_object")
+            hist.add(actor=op.get("actor"), op="rescale_time", target=op["target"], dt=op["dt"])
         elif name == "set_attr":
             setattr(world.instrument(op["target"]), op["attr"], op["value"])
             stats.probe("attribute_assigned_on_live_object")
